@@ -73,6 +73,44 @@ fn execute(with_line_0: bool, toks: Vec<Token>) -> Option<u8> {
     }
 }
 
+/// array subscripts: the checker's and the interpreter's `evaluate_array_index` on the same tokens
+/// (statements that touch arrays exhaust memory in symex; the subscript lists are where the two forks
+/// can disagree about arrays)
+fn analyze_index(toks: Vec<Token>) -> Option<u8> {
+    let mut program = Program::default();
+    program.set_numbered_line(10, toks);
+    program.run_from_first_numbered_line();
+    let mut acc = SymbolAccessMap::default();
+    let r = ExpressionAnalyzer::new(&mut program, &mut acc).evaluate_array_index();
+    let code = match &r {
+        Ok(_) => None,
+        Err(e) => Some(err_code(&e.error)),
+    };
+    core::mem::forget(r);
+    core::mem::forget(acc);
+    core::mem::forget(program);
+    code
+}
+
+fn execute_index(toks: Vec<Token>) -> Option<u8> {
+    let mut i = Interpreter::default();
+    line(&mut i, 10, toks);
+    i.program.run_from_first_numbered_line();
+    set_num(&mut i, "Y", any_small());
+    set_num(&mut i, "Z", any_small());
+    let r = i.variables.set(sym("S$"), Value::String(std::rc::Rc::new(String::from(pick_str(kani::any())))));
+    kani::assume(r.is_ok());
+    core::mem::forget(r);
+    let res = crate::expression::ExpressionEvaluator::new(&mut i).evaluate_array_index();
+    let code = match &res {
+        Ok(_) => None,
+        Err(e) => Some(err_code(&e.error)),
+    };
+    core::mem::forget(res);
+    core::mem::forget(i);
+    code
+}
+
 fn is_static_kind(c: Option<u8>) -> bool {
     c == Some(E_SYNTAX) || c == Some(E_TYPE) || c == Some(E_UNDEF)
 }
@@ -163,6 +201,16 @@ def generate(prop, tier, seed):
         out += '    assert!(a.is_some() || !is_static_kind(e), "%s: accepted by the checker but fails with a syntax / type / undefined-line error");\n' % msg
         if straight:
             out += '    assert!(a.is_none() || e.is_some(), "%s: rejected by the checker but executes without error");\n' % msg
+        out += '    kani::cover!(true, "reached_end");\n}\n'
+    for label, text in (("one num", "(Y)"), ("one str", "(S$)"), ("two nums", "(Y, Z)"), ("str second", "(1, S$)"), ("str first", "(S$, 1)"), ("str third", "(1, 2, S$)"), ("unclosed", "(1, 2"), ("expr", "(Y + 1, Z * 2)")):
+        name = "c06_subscripts_" + "_".join(label.split())
+        out += '\n// @verif prop=C06 tier=quick timeout=900 mem=6000 cost=60 arms=1 clause="array subscript lists: the checker accepts => the interpreter raises no SYNTAX / TYPE MISMATCH for any values; the checker rejects => the interpreter fails too"\n'
+        out += '// @verif sample="subscript list %s ; Y,Z any of 9 numbers, S$ any of 4 strings" bounds="one subscript list"\n' % text
+        out += "#[kani::proof]\n#[kani::unwind(14)]\n" + STUBS
+        out += "fn %s() {\n" % name
+        out += "    let a = analyze_index(%s);\n    let e = execute_index(%s);\n" % (vec(text), vec(text))
+        out += '    assert!(a.is_some() || !is_static_kind(e), "c06 [subscripts %s]: accepted by the checker but fails with a syntax / type error");\n' % text
+        out += '    assert!(a.is_none() || e.is_some(), "c06 [subscripts %s]: rejected by the checker but evaluates without error");\n' % text
         out += '    kani::cover!(true, "reached_end");\n}\n'
     return [("verif_c06_gen", "abasic-core", "src/analyzer/statement_analyzer.rs", out)]
 
